@@ -164,18 +164,33 @@ func runC04(t *testing.T, s c04Scn) (x nExec) {
 					_ = c.nodes[s.N-1].M.Leave(2 * time.Second)
 				}()
 			})
-		case "two-leaves+shutdown":
+		case "two-leaves+shutdown", "two-leaves+shutdown:first-then-second", "two-leaves+shutdown:second-then-last", "two-leaves+shutdown:last-then-first":
 			// two members depart gracefully one after the other, each shutting down after its Leave: the
 			// second leaver holds the first one's departed record while it announces its own departure
+			l1, l2 := s.N-1, s.N-2
+			switch s.Op {
+			case "two-leaves+shutdown:first-then-second":
+				l1, l2 = 0, 1
+			case "two-leaves+shutdown:second-then-last":
+				l1, l2 = 1, s.N-1
+			case "two-leaves+shutdown:last-then-first":
+				l1, l2 = s.N-1, 0
+			}
 			c.at(at, "Leave", func() {
-				go func() { _ = c.nodes[s.N-1].M.Leave(2 * time.Second) }()
+				go func() { _ = c.nodes[l1].M.Leave(2 * time.Second) }()
 			})
-			c.at(at+1500*time.Millisecond, "Shutdown-after-leave", func() { c.crash(s.N - 1); c.nodes[s.N-1].left = true })
-			c.at(at+1700*time.Millisecond, "Leave-2", func() {
-				go func() { _ = c.nodes[s.N-2].M.Leave(2 * time.Second) }()
+			c.at(at+1500*time.Millisecond, "Shutdown-after-leave", func() { c.crash(l1); c.nodes[l1].left = true })
+			// the second one does what applications do: Leave, and Shutdown the moment Leave returns
+			c.at(at+1700*time.Millisecond, "Leave-2-then-Shutdown", func() {
+				go func() {
+					_ = c.nodes[l2].M.Leave(2 * time.Second)
+					c.nodes[l2].mu.Lock()
+					c.nodes[l2].left = true
+					c.nodes[l2].mu.Unlock()
+					c.crash(l2)
+				}()
 			})
-			c.at(at+3200*time.Millisecond, "Shutdown-after-leave-2", func() { c.crash(s.N - 2); c.nodes[s.N-2].left = true })
-			leavers[s.N-1], leavers[s.N-2] = true, true
+			leavers[l1], leavers[l2] = true, true
 		case "leave+shutdown":
 			c.at(at, "Leave", func() {
 				leaver = s.N - 1
@@ -303,7 +318,9 @@ func TestC04(t *testing.T) {
 		}
 		for oi, o := range ords {
 			for _, at := range []int{700, 1900} {
-				scns = append(scns, scn{N: n, Order: o, Phase: oi, Op: "two-leaves+shutdown", OpAt: at, L0: "min"})
+				for _, op := range []string{"two-leaves+shutdown", "two-leaves+shutdown:first-then-second", "two-leaves+shutdown:second-then-last", "two-leaves+shutdown:last-then-first"} {
+					scns = append(scns, scn{N: n, Order: o, Phase: oi, Op: op, OpAt: at, L0: "min"})
+				}
 			}
 		}
 	}
@@ -313,7 +330,7 @@ func TestC04(t *testing.T) {
 	for si, s := range scns {
 		s := s
 		b := bound
-		if !thorough() && !(s.Op == "none" || s.Op == "leave" || s.Op == "update" || s.Op == "update-empty" || s.Op == "update+leave" || s.Op == "leave+shutdown" || s.Op == "two-leaves+shutdown") {
+		if !thorough() && !(s.Op == "none" || s.Op == "leave" || s.Op == "update" || s.Op == "update-empty" || s.Op == "update+leave" || s.Op == "leave+shutdown" || strings.HasPrefix(s.Op, "two-leaves+shutdown")) {
 			b = 0 // quick: deviations only on the core scenarios
 		}
 		if b == 0 && !mine(si) {
